@@ -252,14 +252,7 @@ impl Model for AcceptModel {
                 let addr = ADDRS[*a];
                 let res = sys.rt.block_on(async move {
                     // same socket set-up as common::connect, but the session is inspected before it is spawned
-                    let listener = tokio::net::TcpListener::bind("127.0.0.1:0").await.map_err(|e| e.to_string())?;
-                    let laddr = listener.local_addr().map_err(|e| e.to_string())?;
-                    let sock = tokio::net::TcpSocket::new_v4().map_err(|e| e.to_string())?;
-                    let _ = sock.set_reuseaddr(true);
-                    sock.bind(SocketAddr::new(addr, 0)).map_err(|e| format!("bind {addr}: {e}"))?;
-                    let (client, server) = tokio::join!(sock.connect(laddr), listener.accept());
-                    let mut client = client.map_err(|e| e.to_string())?;
-                    let (server, _) = server.map_err(|e| e.to_string())?;
+                    let (mut client, server) = socket_pair(addr).await?;
                     let session = accept_connection(&d.global, &d.tables, server, role_c).await;
                     match session {
                         None => {
